@@ -96,6 +96,25 @@ def run_core(pid, tier, seed, plan):
         # module for overlapping processes, the core module for several agents reporting one after another)
         cplan = dict(plan)
         cplan.update(camp.get("plan_override", {}))
+        if camp.get("model_only"):
+            # design-level campaign: TLC checks the clauses as plain invariants on the specification with the
+            # given set of deviations (usually none = the repaired design); nothing is replayed
+            gres, _ = tlc.gen_behaviours(consts, os.path.join(wd, camp["name"], "gen"), camp.get("invariants", []),
+                                         workers=camp.get("workers", 12), timeout=camp.get("timeout", 900),
+                                         module=cplan.get("module", "MC_Core.tla"), const_keys=cplan.get("const_keys"),
+                                         emit=None)
+            if gres["violated"] or gres["errors"] or (gres["rc"] != 0 and not gres["timeout"]):
+                print("TOOL-ERROR: the specification with Dev=%s violates %s in campaign %s (see %s)" % (
+                    consts.get("Dev"), gres["violated"] or gres["errors"][:2], camp["name"], gres["log"]))
+                return 2
+            total["states"] += gres["distinct"]
+            total["transitions"] += gres["generated"]
+            campaigns_ev.append({"name": camp["name"], "tlc": {k: gres[k] for k in ("generated", "distinct", "depth",
+                                                                                     "wall_s", "timeout")},
+                                 "mode": "exhaustive", "behaviours": 0, "replayed": 0, "tag_vectors": 0,
+                                 "model_only": True, "invariants_checked": camp.get("invariants", []),
+                                 "consts": {k: consts[k] for k in consts if k not in ("Mode",)}})
+            continue
         cwd = os.path.join(wd, camp["name"])
         gres, beh = tlc.gen_behaviours(consts, os.path.join(cwd, "gen"), camp.get("invariants", []),
                                        workers=camp.get("workers", 12), timeout=camp.get("timeout", 900),
